@@ -52,6 +52,32 @@ RULE = ("one case = one database history (1-3 executions of generated call trees
         "recomputed with redun's hash_struct from the observed tree, every value is deserialized and re-hashed, tags are "
         "compared with the program's intent. distinct = distinct (specs, policies); a history with a single leaf job is trivial")
 
+LEVEL_TEXT = (
+    "Proved in Lean 4 on the recorder model (Model/Merkle.lean; symbolic hashes), all universally quantified, full strength: "
+    "callHash_merkle (every job tree: a job that ended has hash(task, args, result, sorted child hashes), recursively), "
+    "sortH_perm / callHash_perm (the id does not depend on the order of the children; the structural order used for sorting is "
+    "proved to be a total order), merkle_run (from the empty database, after ANY sequence of job starts/ends of any trees and "
+    "executions: every CallNode id is the pre-image of its own fields and a child list, every CallEdge sits at a position of that "
+    "list and points to a recorded node, ids unique), finish_records_node, fresh_edges_mirror + fresh_node_had_no_edges (edges of a "
+    "freshly recorded node = exactly the recorded slots of child_jobs with their positions), dbMerkle_run_tree (induction over "
+    "trees: when every job records provenance all ids are recomputable from the rows alone), job_row_after_start / "
+    "job_row_after_finish / exec_root (Job.parent_id, call_hash, cached, Execution.job_id mirror the tree; collapsed and "
+    "cache-served jobs point to the node handed over), job_call_hash_recorded (the Job->CallNode foreign key), tags_attached / "
+    "tags_only_intended, finish_idempotent_nodes (replays, duplicates), values_keyed. No _partial / _refuted theorem. "
+    "Tie: the job tree observed on the real scheduler (Job objects, not rows) is replayed by the model driver and all "
+    "CallNode/CallEdge/Job/Execution/Tag rows are compared after every execution with digests replaced by logged pre-images; the "
+    "property oracle recomputes every call hash with redun's hash_struct from the observed tree, checks edges/parents/roots/tags "
+    "against the executed tree and the program, deserializes and re-hashes every Value row, and compares the node set under a "
+    "second completion order.")
+LEVEL_NOTE = (
+    "Modelled, not verified: SHA-512/160 and bencode (C14), pickle (the audit found that value hashes depend on object identity: "
+    "known finding C20-value-key-pickle-aliasing), sqlite transaction semantics. The job tree (which jobs exist, who collapses onto "
+    "whom, which hash the cache hands over, completion order) is an INPUT of the model, observed per run: the evaluation machine "
+    "itself is C01/C06 territory. The model cannot exhibit process death between commits (C22), threads, limits, contexts "
+    "(context tags on CallNodes), handles/files, remote executors. Found and fixed through this check: a job collapsed onto a "
+    "prov=False twin crashed the run with a foreign-key error (commit d273f7b).")
+TECHNIQUE = "Lean 4 proof on a hand-written recorder model + whole-database differential audit of real deterministic runs"
+
 KINDS = ["leaf", "fail", "par", "comb", "catch", "tags", "then"]
 
 
